@@ -29,6 +29,25 @@ CLAIMS: dict[str, dict[str, str]] = {
         "note": NOTE,
         "technique": "call-path funnel + parameter-forwarding check, finite abstract case analysis of convert()",
     },
+    "C03": {
+        "text": "Static rule checking of DateTime.add's fixed-length branch on every syntactic path: classification "
+                "list == signature minus the four fixed units; value flow naive copy - utcoffset -> add_duration (8 "
+                "units forwarded) -> tzinfo=UTC -> self.tz.convert -> rebuilt with zone and converted fold; exit "
+                "guards; subtract() negation symmetry; mirrored timedelta arms and operator routing; radix/target of "
+                "every carry in add_duration. Each is a necessary condition of exact elapsed-time arithmetic; float "
+                "exactness of `seconds` and zoneinfo rendering are not claimed.",
+        "note": NOTE,
+        "technique": "path-sensitive value-flow reconstruction, negation-symmetry and carry-chain (radix) checks",
+    },
+    "C04": {
+        "text": "Static rule checking: statement order and operands of the month shift / overflow / clamp / replace / "
+                "timedelta sequence in add_duration; calendar exit of DateTime.add; Date.add reconstruction; "
+                "negation symmetry of both subtract(); sibling agreement of the +delta and -delta helper ladders per "
+                "operand kind incl. component completeness; Duration.__neg__ and _signature completeness; constructor "
+                "completeness for private attributes read under isinstance(delta, Duration).",
+        "note": NOTE,
+        "technique": "ordering/def-use check, sibling-ladder agreement, component completeness, init-completeness",
+    },
 }
 
 NOT_APPLICABLE: dict[str, str] = {}
